@@ -21,15 +21,7 @@ Definition gsubtract (a b : list grow) : list grow :=
   | _ => flat_map (fun c => subtract (filter (on c) a) (filter (on c) b)) (chroms_of a)
   end.
 
-(* compare_chrom_names: both name sets, or ValueError (None) when the first is
-   non-empty and disjoint from the second *)
-Definition compare_chrom_names (a b : list grow) : option (list string * list string) :=
-  let ac := chroms_of a in
-  let bc := chroms_of b in
-  match ac with
-  | [] => Some (ac, bc)
-  | _ => if existsb (fun c => mem_string c bc) ac then Some (ac, bc) else None
-  end.
+(* compare_chrom_names: Model/Target.v (do_target's annotation step calls it too) *)
 
 Fixpoint max_len (l : list string) : Z :=
   match l with [] => 0 | x :: t => Z.max (slen x) (max_len t) end.
